@@ -76,6 +76,33 @@ theorem topInv_step (k : Bool) (fuel : Nat) (s : DStep) (w : World) (h : TopInv 
     show w'.ctxs w'.cur = w.ctxs w.cur
     rw [hcur, h.cur]
     exact hfr.ctxs_eq 0 h.pos h.no
+  | resumeIn fresh i inp =>
+    have hfresh : NotOwnedFrom 0 w w.nctx := by
+      intro k' g' hk' hg' hc'
+      have := h.inv.owned_lt hk' hg' hc'
+      omega
+    have hinv1a := (h.inv.setCtx (v := if fresh then none else w.ctxs w.cur) hfresh).nctx_le (Nat.le_succ _)
+    have hinv1 : InvFrom 0 ({ (w.setCtx w.nctx (if fresh then none else w.ctxs w.cur)) with
+        nctx := w.nctx + 1, cur := w.nctx, pending := (if fresh then none else w.ctxs w.cur) } : World) :=
+      ⟨hinv1a.ok, hinv1a.distinct⟩
+    have hspec := resumeGen_spec k fuel i inp
+      { (w.setCtx w.nctx (if fresh then none else w.ctxs w.cur)) with
+        nctx := w.nctx + 1, cur := w.nctx, pending := (if fresh then none else w.ctxs w.cur) }
+      (hinv1.mono (Nat.zero_le i)) (Nat.lt_succ_self _)
+      (hfresh.mono (Nat.zero_le i)) ⟨h.good.obs, h.good.nrecs⟩ (by simp [World.setCtx])
+    have hlift := InvFrom.lift hinv1 (Nat.zero_le i) hspec.1 hspec.2.1
+    have hfr := hspec.2.1.mono (Nat.zero_le i)
+    simp only [dstep]
+    generalize resumeGen k fuel i inp _ = r at hspec hlift hfr
+    obtain ⟨o, w'⟩ := r
+    simp only at hspec hlift hfr ⊢
+    have hpos1 : 0 < w.nctx + 1 := Nat.succ_pos _
+    have hno' : NotOwnedFrom 0 w' 0 := hfr.notOwned hpos1 h.no
+    refine ⟨⟨⟨hlift.ok, hlift.distinct⟩, h.cur, Nat.lt_of_lt_of_le hpos1 hfr.nctx_le, hno', ⟨hspec.2.2.obs, hspec.2.2.nrecs⟩⟩, fun _ => ?_⟩
+    show w'.ctxs w.cur = w.ctxs w.cur
+    rw [h.cur, hfr.ctxs_eq 0 hpos1 h.no]
+    have : (0 : Nat) ≠ w.nctx := Nat.ne_of_lt h.pos
+    simp [World.setCtx, this]
 
 theorem runScript_spec (k : Bool) (fuel : Nat) : ∀ (script : List DStep) (w : World), TopInv w →
     TopInv (runScript k fuel script w).2 ∧
